@@ -2,7 +2,7 @@
 # tools/reseed_all.sh: re-run every stored seeded change against its own property's quick check
 # (must be caught) and every stored behaviour-preserving refactoring against all 20 (must be silent).
 # With "snapshot" as first argument it works on copies (/tmp/verif_snap, /tmp/repo_snap) so that
-# /verif and /repo stay free while it runs (about two hours).
+# /verif and /repo stay free while it runs (three to four hours for 300 changes).
 if [ "$1" = "snapshot" ]; then
   rm -rf /tmp/verif_snap /tmp/repo_snap
   rsync -a --exclude .cache --exclude bin --exclude .git /verif/ /tmp/verif_snap/
